@@ -14,7 +14,7 @@ NOTES = {
     "C12-m1": "rebased on fixes cb4ea3a / 446eb9d: the '?'-label clear is kept for Exception only (BaseException path restores bindings but not the label)",
     "C18-m1": "rebased on fix 413ae16: the non-exception-safe manual patching now surrounds get_code(); new demo.py (hooked module whose source does not compile); original kept as demo.orig.py / patch.orig.diff",
     "C08-m1": "rebased on fix 446eb9d (the mutant's nesting stack replaces the 'only leave flatten mode if we entered it' logic)",
-    "C08-m2": "rebased on fixes cb4ea3a / 446eb9d.  NEUTRALISED by fix 446eb9d: nested PyTree checks no longer bind during the outer flatten, so the late snapshot is harmless; demo.py passes with the patch applied.  Before that fix the C08 check caught it (oracle rejected-tree-binds-nothing, 1.5 s)",
+    "C08-m2": "rebased on fixes cb4ea3a / 446eb9d.  Its demo.py no longer fails (after fix 446eb9d nested PyTree checks do not bind AXES during the outer flatten), but the change still breaks 'a rejected tree binds nothing' through STRUCTURE NAMES bound during flattening (a structured PyTree as leaf type of a structure-less one): caught by C04 (before=after) and C16.  Before fix 446eb9d the C08 check caught it directly (rejected-tree-binds-nothing, 1.5 s)",
     "C09-m2": "NEUTRALISED by fix f12a222 (in-place rollback: the dictionary the deferred write goes to can no longer be stale); demo.py passes with the patch applied.  With jaxtyping/_storage.py of f12a222^ the C09 check catches it",
     "C13-m1": "rebased on fix 446eb9d",
     "C16-m1": "rebased on fix 446eb9d (context-manager helper clears the label only for structured PyTrees, as the fixed code does)",
@@ -56,7 +56,10 @@ def main():
     for d, prop, caught, m, note in rows:
         am = json.load(open(os.path.join(V, d, "agent_meta.json")))
         short = (am.get("summary") or "").split(". ")[0][:150]
-        cb = ", ".join(f"**{c}** ({m[c].get('oracle')}, {m[c].get('wall')} s)" for c in caught) or ("— (neutralised, see note)" if "NEUTRALISED" in note else "— **missed**")
+        cb = ", ".join(f"**{c}** ({m[c].get('oracle')}, {m[c].get('wall')} s)" for c in caught) or ("— (neutralised by a fix: its demo passes with the patch applied, see meta.json)" if "NEUTRALISED" in note else "— **missed**")
+        errs = [c for c, r_ in m.items() if isinstance(r_, dict) and r_.get("rc") not in (0, 1)]
+        if errs:
+            cb += "; exit 2 (harness error, never exit 0) from " + ", ".join(errs)
         out.append(f"| {d} | {prop} | {short} | {cb} |")
     print("\n".join(out))
 
